@@ -17,8 +17,10 @@ State description (source and pre-populated target use the same format; built in
    4 CALIBRATION), "dsets": [[n, t, d, run, content]], "tags": [[c, n]], "calibs": [[c, n, b, e]]}
 
 Actions:
-  ["ExIm", [n...], [c...], mode]         export(saveDatasets(refs n), saveCollection(c)...) into a fresh directory
-                                          (files copied out), then target.import_(directory, transfer=mode)
+  ["ExIm", [n...], [c...], mode(, [n...])] export(saveDatasets(refs n), saveCollection(c)...) into a fresh directory
+                                          (files copied out), then target.import_(directory, transfer=mode); the optional
+                                          5th element is a permutation of the ids: one saveDatasets call per dataset in
+                                          that order (= the order in which the export context meets the dataset types)
   ["Xfer", [n...], mode, regtypes, dims]  target.transfer_from(source, refs, transfer=mode,
                                           register_dataset_types=regtypes, transfer_dimensions=dims)
 """
@@ -58,9 +60,13 @@ def did(d):
     return {"instrument": f"I{d // NDET}", "detector": d % NDET}
 
 
+UNBOUNDED = 90     # validity-range end 90 = unbounded (None); every bounded value is smaller, so the model's < order agrees
+
+
 def tspan(b, e):
     from lsst.daf.butler import Timespan
-    return Timespan(None, None, _nsec=(BASE + b * STEP, BASE + e * STEP))
+    from lsst.daf.butler.time_utils import TimeConverter
+    return Timespan(None, None, _nsec=(BASE + b * STEP, TimeConverter().max_nsec if e == UNBOUNDED else BASE + e * STEP))
 
 
 class Repo:
@@ -200,7 +206,8 @@ class Repo:
                         for a in reg.queryDatasetAssociations(dt.name, collections=[name], collectionTypes={CollectionType.CALIBRATION}):
                             b, e = a.timespan.nsec
                             calibs.append([c, n_of.get(a.ref.id, -1), (b - BASE) // STEP if (b - BASE) % STEP == 0 else -1,
-                                           (e - BASE) // STEP if (e - BASE) % STEP == 0 else -1])
+                                           UNBOUNDED if a.timespan.end is None else
+                                           ((e - BASE) // STEP if (e - BASE) % STEP == 0 else -1)])
                     except Exception as e:  # noqa: BLE001
                         perr("queryDatasetAssociations", e)
         obs["dsets"], obs["content"], obs["tags"], obs["calibs"] = sorted(dsets), sorted(content), sorted(tags), sorted(calibs)
@@ -251,14 +258,19 @@ def run_case(case):
         steps = []
         for act in case["actions"]:
             if act[0] == "ExIm":
-                _, ids, colls, mode = act
+                _, ids, colls, mode = act[:4]
+                order = act[4] if len(act) > 4 else None     # optional: one saveDatasets call per dataset, in this order
                 d = fixture.new_root("c19x")
                 dirs.append(d)
 
                 def go():
                     refs = [src.ref(n, *sdefs[n]) for n in ids]
                     with src.butler.export(directory=d, filename="export.yaml", transfer="copy") as ex:
-                        ex.saveDatasets(refs)
+                        if order:
+                            for n in order:
+                                ex.saveDatasets([src.ref(n, *sdefs[n])])
+                        else:
+                            ex.saveDatasets(refs)
                         for c in colls:
                             ex.saveCollection(cname(c))
                     tgt.butler.import_(directory=d, filename="export.yaml", transfer=mode)
